@@ -18,7 +18,7 @@ CROSSCHECK = True   # run the CPython cross-check of the executor encoding (pyvc
 FILES = ["moclo/moclo/regex.py"]
 F = "moclo/moclo/regex.py"
 FUNCTIONS = [(F, "DNARegex._transcribe"), (F, "DNARegex.__init__"), (F, "DNARegex.search"), (F, "SeqMatch.group"),
-             (F, "SeqMatch.span"), (F, "SeqMatch.start"), (F, "SeqMatch.end")]
+             (F, "SeqMatch.span"), (F, "SeqMatch.start"), (F, "SeqMatch.end"), (F, "SeqMatch.__init__")]
 ASSUMES = ["D-RE", "RE4: under (?i) a class [XYZ] matches exactly the letters X, Y, Z in either case "
                    "(enumerated completely against the real `re` for the 15 codes by the bounded part)"]
 TRUSTED = ["CPython re (assumed contract D-RE)", "Bio.Seq / SeqRecord slicing and concatenation (D-SEQ, D-REC-*)"]
